@@ -1,10 +1,10 @@
 (* ParseContribExamples.v — the hypotheses of no_statement_discarded / every_statement_contributes are satisfiable
    by an ordinary script (fenced block, comment, blank line, bracketed continuation), and each of them is needed:
-   the witnesses of ParseModelExamples violate exactly one of them.  All by computation. *)
+   the witnesses of ParseModelExamples violate exactly one of them (the unclosed fence is an error since 85765d5).  All by computation. *)
 From Coq Require Import String Ascii List Bool Arith ZArith.
 Import ListNotations.
 Require Import Generated PyBase PyStr Lex Format Symbols Split SplitFacts SplitChunks SplitChunksFacts Merge ParseEq ParseEqFacts
-               ParseModel ParseModelFacts ParseModelExamples ParseContribFacts FormatDecideFacts SplitInsertFacts MergeUniqueFacts ParseCountFacts.
+               ParseModel ParseModelFacts ParseModelExamples ParseContribFacts FormatDecideFacts SplitInsertFacts MergeUniqueFacts ParseCountFacts SplitFenceGuardFacts.
 Open Scope string_scope.
 
 Definition ordinary : string :=
@@ -17,10 +17,9 @@ Proof. vm_compute. reflexivity. Qed.
 Example ordinary_hyps :
   (exists out, parse_model_nocheck ordinary = POk out /\ n_emitted out = 3) /\
   (forall st, In st (fst (split_M ordinary)) -> stmt_guard st) /\
-  NoDup (emit_names (concat (stmt_symbols ordinary))) /\
-  ends_in_open_fence ordinary = false.
+  NoDup (emit_names (concat (stmt_symbols ordinary))).
 Proof.
-  split; [eexists; split; vm_compute; reflexivity|]. split; [|split; [|vm_compute; reflexivity]].
+  split; [eexists; split; vm_compute; reflexivity|]. split.
   - intros st H. vm_compute in H. destruct H as [<-|[<-|[<-|[]]]].
     + right. eexists. exists "Y". split; vm_compute; reflexivity.
     + left. vm_compute. reflexivity.
@@ -29,11 +28,9 @@ Proof.
 Qed.
 
 (* each hypothesis is needed: the finding witnesses break exactly the corresponding one *)
-Example unclosed_fence_breaks_closedness : ends_in_open_fence unclosed_fence = true /\ all_closed unclosed_fence = false.
+Example unclosed_fence_now_rejected :     (* 85765d5 *)
+  ends_in_open_fence unclosed_fence = true /\ snd (split_M unclosed_fence) = Some ParserError.
 Proof. vm_compute. split; reflexivity. Qed.
-Example unclosed_fence_lost_lines :
-  model_lines unclosed_fence = (concat (model_chunks unclosed_fence) ++ ["```"; "foo = 1"; "Z = W"])%list.
-Proof. vm_compute. reflexivity. Qed.
 Example duplicate_breaks_nodup : ~ NoDup (emit_names (concat (stmt_symbols duplicate_statements))).
 Proof. vm_compute. intros H. inversion H as [|x l Hn _]; subst. apply Hn. left. reflexivity. Qed.
 Example two_names_break_lhs_guard : forall terms y, parse_equation_terms "Y,Z = 1,2" = Ret terms -> lhs_guard y terms = false.
@@ -89,4 +86,18 @@ Example count_called_name : eq_names "Y = Y(1)" = [] /\ count_new [] (eq_names "
 Proof. vm_compute. split; reflexivity. Qed.
 Example count_ordinary :
   count_new [] (eq_names ordinary) = 2 /\ length (filter backticked (fst (split_M ordinary))) = 1 /\ accepted_emits ordinary = Some 3.
+Proof. vm_compute. repeat split; reflexivity. Qed.
+
+(* the exact guard on the witnesses: it fails on the three findings and holds on the ordinary script *)
+Example exact_guard_values :
+  exact_count_guard duplicate_statements = false /\ exact_count_guard "Y,Z = 1,2" = false /\ exact_count_guard "Y = Y(1)" = false /\
+  exact_count_guard ordinary = true.
+Proof. vm_compute. repeat split; reflexivity. Qed.
+
+(* fences_clean: holds on ordinary scripts (fenced block included); fails on the two shapes of the ValueError finding —
+   a fence line met inside an open bracket, and a fence line with text after its backticks *)
+Definition eqless_fence2 : string := lines ["```"; "foo```"; "```x"].
+Example fences_clean_values :
+  fences_clean_model ordinary = true /\ fences_clean_model eqless_fence = false /\ fences_clean_model eqless_fence2 = false /\
+  parse_model_nocheck eqless_fence2 = PErr ValueError /\ no_eqless_statement eqless_fence2 = false.
 Proof. vm_compute. repeat split; reflexivity. Qed.
